@@ -15,7 +15,7 @@ from typing import (
 
 from ..exc import ExtensionError, SDLError
 from ..lang import ast as _ast, parse
-from ..schema import NamedType, ObjectType, Schema
+from ..schema import NamedType, ObjectType, ScalarType, Schema
 from .ast_type_builder import ASTTypeBuilder
 from .schema_directives import TSchemaDirective, apply_schema_directives
 
@@ -73,6 +73,34 @@ def build_schema(
     )
 
     if not ignore_extensions:
+        # The definitions of the document are part of the schema by now, which
+        # is why the extension pass cannot be strict; an extension whose target
+        # is defined nowhere is still an error.
+        for definition in ast.definitions:
+            if isinstance(
+                definition, _ast.TypeExtension
+            ) and not schema.has_type(definition.name.value):
+                raise ExtensionError(
+                    'Cannot extend undefined type "%s".'
+                    % definition.name.value,
+                    [definition],
+                )
+
+            # Specified scalars are never rebuilt, extending them as anything
+            # but a scalar would otherwise go unnoticed.
+            if (
+                isinstance(definition, _ast.TypeExtension)
+                and not isinstance(definition, _ast.ScalarTypeExtension)
+                and isinstance(
+                    schema.get_type(definition.name.value), ScalarType
+                )
+            ):
+                raise ExtensionError(
+                    "Expected ScalarTypeExtension when extending ScalarType "
+                    "but got %s" % type(definition).__name__,
+                    [definition],
+                )
+
         schema = extend_schema(
             schema, ast, additional_types=additional_types, strict=False
         )
